@@ -345,10 +345,11 @@ class T2PageTag(nfc.tag.tt2.Type2Tag):
     """A Type 2 Tag as ghost memory behind the page commands: READ returns 16 octets from the addressed page
     of the selected sector, WRITE replaces one page (4 octets) atomically; a write that changes nothing is never
     needed (interface obligation: C03 page-granular write-back of modified pages only)."""
-    def __init__(self, mem):
+    def __init__(self, mem, lossy=False):
         self.mem = mem
         self.cur = 0
         self.writes = 0
+        self.lossy = lossy
 
     def sector_select(self, sector):
         self.cur = sector
@@ -364,6 +365,9 @@ class T2PageTag(nfc.tag.tt2.Type2Tag):
         addr = self.cur * 1024 + (page % 256) * 4
         require(len(data) == 4 and addr + 4 <= len(self.mem), 'WRITE addresses one page of the tag')
         require(bytes(data) != self.mem[addr:addr + 4], 'only pages whose content differs are written')
+        if self.lossy and nondet_bool():
+            # the command is lost (tag leaves the field): nothing is written
+            raise nfc.tag.tt2.Type2TagCommandError(nfc.tag.TIMEOUT_ERROR)
         self.mem = self.mem[0:addr] + bytes(data) + self.mem[addr + 4:]
         self.writes = self.writes + 1
         return True
